@@ -302,7 +302,7 @@ NAME_CHARS = list("abcXYZ019 ;=\"'%+&?#*()[]{}<>@,.:~_-") + ["\\", "/", "Ã©", "Ã
 DISP_TEXT = st.text(alphabet=st.sampled_from(NAME_CHARS), min_size=1, max_size=10).map(lambda s: s.lstrip("\\/") or "n")
 TEXT = st.text(alphabet=st.sampled_from(list("abc xyz\r\n=-_.;:'\"%&+") + ["Ã©", "ÃŸ", "Ñ‹", "ä¸­", "â€¨", "\t"]), max_size=30)
 CHARSETS = [None, "utf-8", "latin-1", "koi8-r", "utf-16"]
-APIS = ["read", "read_decode", "chunks", "chunks", "readline", "release", "partial", "skip", "typed"]
+APIS = ["read", "read_decode", "chunks", "chunks", "readline", "release", "partial", "skip", "typed", "lines_then_skip", "lines_then_read"]
 
 
 @st.composite
@@ -531,7 +531,9 @@ async def read_leaf(part, p: dict, raw_expect: bytes, blen: int, stats: dict) ->
 
     if api == "typed" and p["kind"] not in ("str", "json", "form"):
         api = "read_decode"
-    if api == "readline":
+    if api in ("lines_then_skip", "lines_then_read") and has_len:
+        api = "read"  # (a part with its own Content-Length is read by count; the line API does not keep that count)
+    if api in ("readline", "lines_then_skip", "lines_then_read"):
         lines = raw_expect.split(b"\n")
         longest = max((len(x) for x in lines), default=0)
         marker = b"--" + part._boundary[2:]  # noqa: SLF001
@@ -578,6 +580,18 @@ async def read_leaf(part, p: dict, raw_expect: bytes, blen: int, stats: dict) ->
             if i > 64 + 4 * (len(raw_expect) + 10):
                 raise Violation("no-progress", "readline loop does not reach the end of the part")
         check_raw(b"".join(out), "readline")
+    elif api in ("lines_then_skip", "lines_then_read"):
+        # the first line(s) through the line API, then the rest is skipped (next() releases it) or read in one go
+        got = bytearray()
+        for _ in range(1 + p["sizes"][0] % 3):
+            if part.at_eof():
+                break
+            got += await part.readline()
+        if not raw_expect.startswith(bytes(got)):
+            raise Violation("raw-mismatch/readline-prefix", f"lines read {_short(got)} are not a prefix of {_short(raw_expect)}")
+        if api == "lines_then_read":
+            got += await part.read()
+            check_raw(bytes(got), "readline+read")
     elif api == "release":
         await part.release()
     elif api == "partial":
@@ -791,9 +805,10 @@ def check_form(rec: Rec, case: dict) -> None:
         charset = case["charset"]
         fields = case["fields"]
         for f in fields:
-            if f["kind"] == "str" and charset and "ctype" in f:
-                # an explicit content type without a charset parameter plus a form charset leaves the receiver guessing
-                f["ctype"] = f["ctype"] + "; charset=" + charset
+            if f["kind"] == "str" and (charset or case.get("charset_field")) and "ctype" in f and "charset=" not in f["ctype"]:
+                # an explicit content type without a charset parameter plus a form charset (or a _charset_ default that
+                # is not what FormData encodes with) leaves the receiver guessing
+                f["ctype"] = f["ctype"] + "; charset=" + (charset or "utf-8")
             if f["kind"] == "str" and charset:
                 try:
                     f["text"].encode(charset)
